@@ -834,6 +834,7 @@ class Evaluator(object):
 
         self.loop_fixpoint(L, env, iterate)
         self.classify(L)
+        L = self.wrap_flatten(L)
         items = []
         for idx, it in enumerate(L.iters):
             if it.end == "continue":
@@ -859,6 +860,33 @@ class Evaluator(object):
             p.events.append(("loop", L, None))
             items.append(End("diverge", env, p))
         return items
+
+    def wrap_flatten(self, L):
+        """`for x in it.flatten()` is a loop over `it` whose every step is a loop over the element: say so."""
+        while L.kind == "for" and isinstance(L.source, tuple) and L.source[0] == "call":
+            c = self.callee(L.source[1])
+            if not (c is not None and c.name == "flatten" and c.trait in ITER_TRAITS and not c.local and L.source[2]):
+                break
+            O = Loop(L.id + ("flat",), L.site, "for")
+            O.elem = ("elem", O.id)
+            O.source = O.raw_source = L.source[2][0]
+            O.iter_ty = c.self_arg_s
+            O.carried = dict(L.carried)
+            L.source = L.raw_source = O.elem
+            L.iter_ty = None
+            L.carried = dict((k, ("lvar", O.id, k)) for k in O.carried)
+            for j, it in enumerate(L.iters):
+                p = Path(list(it.path.conds) if it.end != "done" else [], [("loop", L, j)], dict(it.path.narrow) if it.end != "done" else {})
+                if it.end == "done":
+                    O.iters.append(Iter(p, "continue", dict((k, ("lexit", L.id, k)) for k in O.carried)))
+                elif it.end != "continue":
+                    O.iters.append(Iter(p, it.end, dict(it.updates), ret=it.ret, target=it.target, env=it.env))
+            O.iters.append(Iter(Path(), "done", dict((k, ("lvar", O.id, k)) for k in O.carried), target=[it.target for it in L.iters if it.end == "done"][0] if [it for it in L.iters if it.end == "done"] else None,
+                                env=[it.env for it in L.iters if it.end == "done"][0] if [it for it in L.iters if it.end == "done"] else None))
+            if O.iters[-1].env is None:
+                O.iters.pop()
+            L = O
+        return L
 
     def classify(self, L):
         """for / counter recognition, `done` exits, peeling of lazy adaptors off the source."""
